@@ -9,7 +9,8 @@ Objects (Model/AstLadder.lean, Model/AstUnary.lean):
   `PExpr`             parse trees of the expression grammar, parentheses explicit; `print`, `toAst` (the tree cppcheck
                       should store), `strip` (forget parentheses), `minParen` (fewest parentheses)
   `Gram L false ls e` e is derivable from the non-terminal of level list `ls` (ISO grammar shape: left-associative
-                      levels, the right-associative assignment / conditional level, middle operand of ?: a full expression)
+                      levels, the right-associative assignment / conditional level, middle operand of ?: a full expression,
+                      prefix operators - ! ~ * & on cast-expressions, parentheses, variables, literals)
   `astOf L cpp ts`    model of prepareTernaryOpForAST (twice) + createAst (compileExpression) on a token list
 
 All theorems are for every tree of any size and nesting; `need e ≤ L.maxDepth` is the AST_MAX_DEPTH guard (deeper
@@ -116,6 +117,12 @@ theorem assign_right_assoc (cpp : Bool) (a b c o1 o2 : Wire.Str) (h1 : o1 ∈ as
 /-- the hypotheses of the theorems are satisfiable by non-trivial trees: `a = b + c * (d, e) ? f : g` -/
 example : let e := bin ['='] (var ['a']) (tern (bin ['+'] (var ['b']) (bin ['*'] (var ['c']) (paren (bin [','] (var ['d']) (var ['e'])))))
                     (var ['f']) (var ['g']))
+    Gram Gen.AstLadder.astLadder false Gen.AstLadder.astLadder.levels e = true ∧ (prepE e).declOK = true ∧
+      e.need ≤ Gen.AstLadder.astLadder.maxDepth := by decide
+
+/-- … and with prefix operators: `- a * ! ( b , c ) ? * p & ~ d : - - e` -/
+example : let e := tern (bin ['*'] (pre ['-'] (var ['a'])) (pre ['!'] (paren (bin [','] (var ['b']) (var ['c'])))))
+                    (bin ['&'] (pre ['*'] (var ['p'])) (pre ['~'] (var ['d']))) (pre ['-'] (pre ['-'] (var ['e'])))
     Gram Gen.AstLadder.astLadder false Gen.AstLadder.astLadder.levels e = true ∧ (prepE e).declOK = true ∧
       e.need ≤ Gen.AstLadder.astLadder.maxDepth := by decide
 
